@@ -371,6 +371,53 @@ def rule_ops(fx, out):
                     'forwards to %s' % what if ok else 'the functor body is not a single forwarding expression (%s; %d blocks, %d calls): the array form no longer runs the C++ function the scalar binding runs' % (top, len(f.blocks), len(calls)), f['loc']))
     return n
 
+OPSYM = {'add': '+', 'sub': '-', 'mul': '*', 'div': '/'}
+
+def expected_loop(name):
+    """the element loop a hand-written array helper must be, from its name (result r, parameters P0, P1, loop indices)"""
+    E1 = lambda x: 'B([],%s,i0)' % x
+    E2 = lambda x: 'B((),%s,i1,i0)' % x
+    R1 = r'B\(\[\],D\(\w+\),i0\)'; R2 = r'B\(\(\),D\(\w+\),i1,i0\)'
+    esc = re.escape
+    m = re.match(r'^(Vec[234]|Quat)_(cross|dot)_\1Array$', name)
+    if m: return 'L\\(i0,B\\(=,%s,%s\\)\\)' % (R1, esc('M(%s,P0,%s)' % (m.group(2), E1('P1')))), 'r[i] = P0.%s(P1[i])' % m.group(2)
+    m = re.match(r'^(Vec[234])_mulTArray$', name)
+    if m: return 'L\\(i0,B\\(=,%s,%s\\)\\)' % (R1, esc('B(*,P0,%s)' % E1('P1'))), 'r[i] = P0 * P1[i]'
+    m = re.match(r'^Color4Array_(i?)(add|sub|mul|div|rsub|neg)(Color|T|ArrayT)?$', name)
+    if m:
+        inpl, op, suf = m.group(1), m.group(2), m.group(3)
+        rhs = 'P1' if suf in ('Color', 'T') else E2('P1')
+        if op == 'neg':
+            return 'L\\(i0,L\\(i1,B\\(=,%s,%s\\)\\)\\)' % (R2, esc('U(-,%s)' % E2('P0'))), 'r(i,j) = -P0(i,j)'
+        if op == 'rsub':
+            return 'L\\(i0,L\\(i1,B\\(=,%s,%s\\)\\)\\)' % (R2, esc('B(-,%s,%s)' % (rhs, E2('P0')))), 'r(i,j) = P1 - P0(i,j)'
+        sym = OPSYM[op]
+        if inpl:
+            return esc('L(i0,L(i1,B(%s=,%s,%s)))' % (sym, E2('P0'), rhs)), 'P0(i,j) %s= %s' % (sym, 'P1' if rhs == 'P1' else 'P1(i,j)')
+        return 'L\\(i0,L\\(i1,B\\(=,%s,%s\\)\\)\\)' % (R2, esc('B(%s,%s,%s)' % (sym, E2('P0'), rhs))), 'r(i,j) = P0(i,j) %s %s' % (sym, 'P1' if rhs == 'P1' else 'P1(i,j)')
+    return None
+
+def rule_loops(fx, out):
+    """hand-written element loops (helpers that do not go through the vectorised functors): the loop body is the one operation
+    its name states, on element (i[,j]) of every array operand, operands in the order of the scalar binding of the same name"""
+    n = 0; seen = set()
+    for f in fx.fns:
+        nm = f.name.split('::')[-1].split('<')[0]
+        exp = expected_loop(nm)
+        if exp is None or f.key in seen: continue
+        seen.add(f.key); n += 1
+        want, human = exp
+        loops = [t_.get('shape', '?') for t_ in f['top'] if t_['cls'] == 'ForStmt']
+        oid = 'loop:%s' % nm
+        if len(loops) != 1:
+            out.append(('R20.same', oid, VIOLATED, '%d top-level loops; expected the single element loop %s' % (len(loops), human), f['loc'])); continue
+        got = loops[0].replace('{', '').replace('}', '')
+        if re.fullmatch(want, got):
+            out.append(('R20.same', oid, HOLDS, human, f['loc']))
+        else:
+            out.append(('R20.same', oid, VIOLATED, 'the element loop is %s; the name and the scalar binding say %s (operands in that order, each array operand at the loop index)' % (got[:120], human), f['loc']))
+    return n
+
 def rule_unmasked(fx, out):
     """where an argument is accepted because its length equals the *unmasked* length of a masked array (X.len() ==
     Y.unmaskedLength()), element k of the masked view is element raw_ptr_index(k) of the argument: the task built on that
@@ -398,7 +445,7 @@ def rule_unmasked(fx, out):
                         'on the branch %s the task %s indexes the argument with the position in the masked view; the argument has the unmasked length, so element k must be taken at raw_ptr_index(k)' % (C, e['cls']), e['loc']))
     return n
 
-RULES = [('range', rule_range_index), ('len', rule_len), ('wr', rule_wr), ('gil', rule_gil), ('ops', rule_ops), ('unmasked', rule_unmasked)]
+RULES = [('range', rule_range_index), ('len', rule_len), ('wr', rule_wr), ('gil', rule_gil), ('ops', rule_ops), ('loops', rule_loops), ('unmasked', rule_unmasked)]
 
 def main(rep, ws, tier):
     repo = build.REPO
@@ -422,6 +469,7 @@ def main(rep, ws, tier):
     rep.floor('GIL obligations', counts['gil'], 40)
     rep.floor('operator functors', counts['ops'], 30)
     rep.floor('unmasked-length branches', counts['unmasked'], 2)
+    rep.floor('hand-written element loops', counts['loops'], 30)
     rep.trusted[:] = ['clang 14 front end (AST, CFG) through tools/pyrules', 'Boost.Python / CPython headers as installed']
     rep.assumptions += ['accessor operator[] reads/writes exactly the element of its index (R19.wguard covers the writable ones)',
                         'the WorkerPool calls execute() only with sub-ranges of [0, length) (its implementation is supplied by the host application)']
